@@ -631,3 +631,341 @@ Proof.
   rewrite (inside_implies_check _ _ Hd Hin). cbn [negb].
   unfold serve_static_file, py_open. now rewrite Hz, Hfs.
 Qed.
+
+(* ================================================================== *)
+(* reading the reply back off the wire                                 *)
+(* ================================================================== *)
+Fixpoint lines_bytes (ls : list bytes) : bytes :=
+  match ls with [] => [] | l :: t => l ++ CRLF ++ lines_bytes t end.
+
+Definition hdrline (kv : bytes * bytes) : bytes := build_http_header (fst kv) (snd kv).
+
+Lemma header_lines_lines hs : header_lines hs = lines_bytes (map hdrline hs).
+Proof. induction hs as [|[k v] t IH]; cbn [header_lines map lines_bytes]; [reflexivity|]. now rewrite IH. Qed.
+
+Lemma mem_byte_app x a b : mem_byte x (a ++ b) = mem_byte x a || mem_byte x b.
+Proof. induction a as [|y t IH]; cbn [app mem_byte]; [reflexivity|]. now rewrite IH, orb_assoc. Qed.
+
+(* skipping a stretch that cannot start the separator *)
+Lemma split_once_skip sep0 sep p r :
+  mem_byte sep0 p = false ->
+  split_once (sep0 :: sep) (p ++ r)
+  = match split_once (sep0 :: sep) r with Some (a, c) => Some (p ++ a, c) | None => None end.
+Proof.
+  induction p as [|x t IH]; intros H; cbn [app].
+  - destruct (split_once (sep0 :: sep) r) as [[a c]|]; reflexivity.
+  - cbn [mem_byte] in H. apply orb_false_iff in H as [Hx Ht].
+    cbn [split_once is_prefix]. rewrite Hx. cbn [andb]. rewrite (IH Ht).
+    destruct (split_once (sep0 :: sep) r) as [[a c]|]; reflexivity.
+Qed.
+
+Definition clean_line (l : bytes) : Prop := l <> [] /\ mem_byte CR l = false.
+
+Lemma split_once_here sep l :
+  is_prefix sep l = true -> split_once sep l = Some ([], skipn (length sep) l).
+Proof. intros H. destruct l; cbn [split_once]; now rewrite H. Qed.
+
+Lemma split_once_step sep x t :
+  is_prefix sep (x :: t) = false ->
+  split_once sep (x :: t) = match split_once sep t with Some (a, c) => Some (x :: a, c) | None => None end.
+Proof. intros H. cbn [split_once]. now rewrite H. Qed.
+
+Lemma crlf2_not_at_crlf c r : (CR =? c) = false -> is_prefix [CR; LF; CR; LF] (CR :: LF :: c :: r) = false.
+Proof. intros H. cbn [is_prefix]. now rewrite !N.eqb_refl, H. Qed.
+
+Lemma crlf2_not_at_lf r : is_prefix [CR; LF; CR; LF] (LF :: r) = false.
+Proof. reflexivity. Qed.
+
+Lemma split_once_crlf2_lines ls body :
+  ls <> [] -> Forall clean_line ls ->
+  split_once CRLF2 (lines_bytes ls ++ CRLF ++ body) = Some (join CRLF ls, body).
+Proof.
+  change CRLF2 with [CR; LF; CR; LF]. change CRLF with [CR; LF].
+  intros Hne HF. induction ls as [|l t IH]; [congruence|].
+  inversion HF as [|? ? [Hl0 Hl] Ht]; subst.
+  cbn [lines_bytes]. rewrite <- app_assoc. rewrite (split_once_skip _ _ _ _ Hl).
+  destruct t as [|l' t'].
+  - cbn [lines_bytes join app]. change CRLF with [CR; LF]. cbn [app].
+    rewrite split_once_here by (cbn [is_prefix]; now rewrite !N.eqb_refl).
+    cbn [length skipn]. now rewrite app_nil_r.
+  - specialize (IH ltac:(discriminate) Ht).
+    inversion Ht as [|? ? [Hl0' Hl'] _]; subst.
+    destruct l' as [|c l'']; [congruence|].
+    cbn [mem_byte] in Hl'. apply orb_false_iff in Hl' as [Hc _].
+    rewrite join_cons2.
+    cbn [lines_bytes] in *. change CRLF with [CR; LF] in *. cbn [app] in *.
+    rewrite split_once_step by now apply crlf2_not_at_crlf.
+    rewrite split_once_step by apply crlf2_not_at_lf.
+    rewrite IH. reflexivity.
+Qed.
+
+Lemma split_once_crlf_line l rest :
+  mem_byte CR l = false -> split_once CRLF (l ++ CRLF ++ rest) = Some (l, rest).
+Proof.
+  intros Hl. change CRLF with (CR :: [LF]). rewrite (split_once_skip _ _ _ _ Hl).
+  unfold CR, LF. cbn [app split_once is_prefix]. rewrite !N.eqb_refl. cbn [andb skipn length].
+  now rewrite app_nil_r.
+Qed.
+
+Lemma split_once_crlf_none l : mem_byte CR l = false -> split_once CRLF l = None.
+Proof.
+  intros Hl. change CRLF with (CR :: [LF]).
+  rewrite <- (app_nil_r l), (split_once_skip _ _ _ _ Hl). reflexivity.
+Qed.
+
+Lemma splitn_join_crlf ls m :
+  ls <> [] -> Forall clean_line ls -> (length ls <= S m)%nat -> splitn CRLF m (join CRLF ls) = ls.
+Proof.
+  revert m; induction ls as [|l t IH]; intros m Hne HF Hm; [congruence|].
+  inversion HF as [|? ? [_ Hl] Ht]; subst.
+  destruct t as [|l' t'].
+  - cbn [join]. destruct m; cbn [splitn]; [reflexivity|]. now rewrite split_once_crlf_none.
+  - rewrite join_cons2. destruct m as [|m]; [cbn [length] in Hm; lia|].
+    cbn [splitn]. rewrite split_once_crlf_line by assumption.
+    rewrite IH; [reflexivity|discriminate|assumption|cbn [length] in *; lia].
+Qed.
+
+Lemma join_crlf_length ls : (length ls <= S (length (join CRLF ls)))%nat.
+Proof.
+  induction ls as [|l t IH]; [cbn; lia|].
+  destruct t as [|l' t']; [cbn; lia|].
+  rewrite join_cons2, !app_length. change (length CRLF) with 2%nat.
+  change (length (l :: l' :: t')) with (S (length (l' :: t'))). lia.
+Qed.
+
+(* a packet made of clean lines, an empty line and a body is read back as exactly those *)
+Lemma read_reply_lines ls body :
+  ls <> [] -> Forall clean_line ls ->
+  read_reply (lines_bytes ls ++ CRLF ++ body) = Some (ls, body).
+Proof.
+  intros Hne HF. unfold read_reply. rewrite split_once_crlf2_lines by assumption.
+  unfold split_all. rewrite splitn_join_crlf; try assumption; [reflexivity|].
+  pose proof (join_crlf_length ls). lia.
+Qed.
+
+(* decimal numerals contain no CR *)
+Lemma digit_char_not_cr d : (CR =? digit_char d) = false.
+Proof. unfold digit_char, CR. destruct (d <? 10); apply N.eqb_neq; lia. Qed.
+
+Lemma to_base_aux_clean fuel base n acc :
+  mem_byte CR acc = false -> mem_byte CR (to_base_aux fuel base n acc) = false.
+Proof.
+  revert n acc; induction fuel as [|f IH]; intros n acc H; cbn [to_base_aux]; [assumption|].
+  destruct (n <? base).
+  - cbn [mem_byte]. now rewrite digit_char_not_cr.
+  - apply IH. cbn [mem_byte]. now rewrite digit_char_not_cr.
+Qed.
+Lemma dec_of_N_clean n : mem_byte CR (dec_of_N n) = false.
+Proof. apply to_base_aux_clean. reflexivity. Qed.
+
+(* the two header sets _try_static_or_404 can produce, as they reach the wire *)
+Definition content_length_value (body : bytes) : bytes :=
+  if nonempty (Some body) then dec_of_N (len body) else bs "0".
+
+Lemma content_length_value_dec body : content_length_value body = dec_of_N (len body).
+Proof. destruct body; reflexivity. Qed.
+
+Lemma packet_plain v body :
+  build_http_response 200 (Some (bs "OK"))
+    [(bs "Content-Type", v); (bs "Cache-Control", bs "max-age=86400")] (Some body) true false
+  = lines_bytes [bs "HTTP/1.1 200 OK";
+                 bs "Content-Type: " ++ v;
+                 bs "Cache-Control: max-age=86400";
+                 bs "Content-Length: " ++ content_length_value body;
+                 bs "Connection: close"] ++ CRLF ++ body.
+Proof.
+  unfold build_http_response, build_http_pkt.
+  assert (Hx : (if nonempty (Some body) then dec_of_N (len (body_or_empty (Some body))) else bs "0")
+               = content_length_value body) by reflexivity.
+  rewrite Hx. clear Hx. generalize (content_length_value body) as x. intros x.
+  replace (existsb _ _) with false by (vm_compute; reflexivity). cbn [negb andb].
+  replace (dict_set (bs "Connection") (bs "close")
+             (dict_set (bs "Content-Length") x [(bs "Content-Type", v); (bs "Cache-Control", bs "max-age=86400")]))
+    with [(bs "Content-Type", v); (bs "Cache-Control", bs "max-age=86400"); (bs "Content-Length", x);
+          (bs "Connection", bs "close")] by (vm_compute; reflexivity).
+  replace (join WHITESPACE ([HTTP_1_1; dec_of_N 200] ++ (if nonempty (Some (bs "OK")) then [body_or_empty (Some (bs "OK"))] else [])))
+    with (bs "HTTP/1.1 200 OK") by (vm_compute; reflexivity).
+  rewrite header_lines_lines. cbn [map lines_bytes]. unfold hdrline, build_http_header. cbn [fst snd].
+  rewrite <- !app_assoc. destruct body; reflexivity.
+Qed.
+
+Lemma packet_gzip v body :
+  build_http_response 200 (Some (bs "OK"))
+    (dict_set (bs "Content-Encoding") (bs "gzip")
+       [(bs "Content-Type", v); (bs "Cache-Control", bs "max-age=86400")]) (Some body) true false
+  = lines_bytes [bs "HTTP/1.1 200 OK";
+                 bs "Content-Type: " ++ v;
+                 bs "Cache-Control: max-age=86400";
+                 bs "Content-Encoding: gzip";
+                 bs "Content-Length: " ++ content_length_value body;
+                 bs "Connection: close"] ++ CRLF ++ body.
+Proof.
+  unfold build_http_response, build_http_pkt.
+  assert (Hx : (if nonempty (Some body) then dec_of_N (len (body_or_empty (Some body))) else bs "0")
+               = content_length_value body) by reflexivity.
+  rewrite Hx. clear Hx. generalize (content_length_value body) as x. intros x.
+  replace (dict_set (bs "Content-Encoding") (bs "gzip") [(bs "Content-Type", v); (bs "Cache-Control", bs "max-age=86400")])
+    with [(bs "Content-Type", v); (bs "Cache-Control", bs "max-age=86400"); (bs "Content-Encoding", bs "gzip")]
+    by (vm_compute; reflexivity).
+  replace (existsb _ _) with false by (vm_compute; reflexivity). cbn [negb andb].
+  replace (dict_set (bs "Connection") (bs "close")
+             (dict_set (bs "Content-Length") x
+                [(bs "Content-Type", v); (bs "Cache-Control", bs "max-age=86400"); (bs "Content-Encoding", bs "gzip")]))
+    with [(bs "Content-Type", v); (bs "Cache-Control", bs "max-age=86400"); (bs "Content-Encoding", bs "gzip");
+          (bs "Content-Length", x); (bs "Connection", bs "close")] by (vm_compute; reflexivity).
+  replace (join WHITESPACE ([HTTP_1_1; dec_of_N 200] ++ (if nonempty (Some (bs "OK")) then [body_or_empty (Some (bs "OK"))] else [])))
+    with (bs "HTTP/1.1 200 OK") by (vm_compute; reflexivity).
+  rewrite header_lines_lines. cbn [map lines_bytes]. unfold hdrline, build_http_header. cbn [fst snd].
+  rewrite <- !app_assoc. destruct body; reflexivity.
+Qed.
+
+Lemma clean_const_app c v : c <> [] -> mem_byte CR c = false -> mem_byte CR v = false -> clean_line (c ++ v).
+Proof.
+  intros Hc Hc' Hv. split; [destruct c; [congruence|discriminate]|]. now rewrite mem_byte_app, Hc', Hv.
+Qed.
+Lemma clean_const c : c <> [] -> mem_byte CR c = false -> clean_line c.
+Proof. now split. Qed.
+
+Lemma clean_lines_gzip v body :
+  mem_byte CR v = false ->
+  Forall clean_line [bs "HTTP/1.1 200 OK"; bs "Content-Type: " ++ v; bs "Cache-Control: max-age=86400";
+                     bs "Content-Encoding: gzip"; bs "Content-Length: " ++ content_length_value body;
+                     bs "Connection: close"].
+Proof.
+  intros Hv. repeat apply Forall_cons; try apply Forall_nil.
+  - apply clean_const; [discriminate|reflexivity].
+  - apply clean_const_app; [discriminate|reflexivity|assumption].
+  - apply clean_const; [discriminate|reflexivity].
+  - apply clean_const; [discriminate|reflexivity].
+  - apply clean_const_app; [discriminate|reflexivity|].
+    rewrite content_length_value_dec. apply dec_of_N_clean.
+  - apply clean_const; [discriminate|reflexivity].
+Qed.
+
+Lemma clean_lines_plain v body :
+  mem_byte CR v = false ->
+  Forall clean_line [bs "HTTP/1.1 200 OK"; bs "Content-Type: " ++ v; bs "Cache-Control: max-age=86400";
+                     bs "Content-Length: " ++ content_length_value body; bs "Connection: close"].
+Proof.
+  intros Hv. repeat apply Forall_cons; try apply Forall_nil.
+  - apply clean_const; [discriminate|reflexivity].
+  - apply clean_const_app; [discriminate|reflexivity|assumption].
+  - apply clean_const; [discriminate|reflexivity].
+  - apply clean_const_app; [discriminate|reflexivity|].
+    rewrite content_length_value_dec. apply dec_of_N_clean.
+  - apply clean_const; [discriminate|reflexivity].
+Qed.
+
+Section ReadBack.
+  Variable dir : bytes.
+  Variable mcl : Z.
+  Variable agent : bytes.
+  Variable fs : bytes -> option bytes.
+  Variable guess_type : bytes -> option bytes.
+  Variable gz gunz : bytes -> bytes.
+  Hypothesis gunz_gz : forall x, gunz (gz x) = x.
+  Hypothesis dir_abs : startswith dir [SLASH] = true.
+  (* mimetypes never returns a type containing a carriage return *)
+  Hypothesis guess_clean : forall p t, guess_type p = Some t -> mem_byte CR t = false.
+
+  Lemma ctype_clean p :
+    mem_byte CR (match guess_type p with Some t => t | None => bs "text/plain" end) = false.
+  Proof. destruct (guess_type p) as [t|] eqn:E; [now apply (guess_clean p)|reflexivity]. Qed.
+
+  (* What the client reads when a file is served: status line "HTTP/1.1 200 OK", and a body that,
+     after undoing the content-encoding announced by the header lines, is the file, byte for byte;
+     Content-Length announces exactly the body. *)
+  Theorem served_reads_back path reply :
+    try_static_or_404 dir mcl agent fs guess_type gz path = Ok reply ->
+    reply <> NOT_FOUND_RESPONSE_PKT agent ->
+    exists content hdrs body,
+      inside dir (dir ++ before_q path)
+      /\ fs (dir ++ before_q path) = Some content
+      /\ read_reply reply = Some (bs "HTTP/1.1 200 OK" :: hdrs, body)
+      /\ client_body gunz hdrs body = content
+      /\ find_header (bs "Content-Length") hdrs = Some (dec_of_N (len body)).
+  Proof.
+    unfold try_static_or_404, text_. destruct (utf8_valid path); cbn [bind]; [|discriminate].
+    destruct (confinement_check dir (before_q path)) eqn:Hc; cbn [negb].
+    2:{ intros H Hn. inversion H. congruence. }
+    unfold serve_static_file, py_open.
+    destruct (mem_byte 0 (dir ++ before_q path)); [discriminate|].
+    destruct (fs (dir ++ before_q path)) as [content|] eqn:Hfs.
+    2:{ intros H Hn. inversion H. congruence. }
+    intros H _. inversion H as [Hr]. clear H Hr.
+    pose proof (check_implies_inside _ _ dir_abs Hc) as Hin.
+    pose proof (ctype_clean (dir ++ before_q path)) as Hct.
+    unfold okResponse, okResponse_args, static_headers.
+    set (v := match guess_type (dir ++ before_q path) with Some t => t | None => bs "text/plain" end) in *.
+    destruct (true && negb (is_nil content) && (mcl <? Z.of_N (len content))%Z) eqn:E.
+    - apply andb_true_iff in E as [E _]. cbn [andb] in E. rewrite E. cbn [andb].
+      rewrite packet_gzip. set (body := gz content).
+      eexists content, _, body. split; [exact Hin|]. split; [reflexivity|].
+      split; [apply read_reply_lines; [discriminate|]|split].
+      + now apply clean_lines_gzip.
+      + unfold client_body. cbn [find_header].
+        replace (is_prefix (bs "Content-Encoding" ++ [COLON; SP]) (bs "Content-Type: " ++ v)) with false
+          by (vm_compute; reflexivity).
+        replace (is_prefix (bs "Content-Encoding" ++ [COLON; SP]) (bs "Cache-Control: max-age=86400")) with false
+          by (vm_compute; reflexivity).
+        replace (is_prefix (bs "Content-Encoding" ++ [COLON; SP]) (bs "Content-Encoding: gzip")) with true
+          by (vm_compute; reflexivity).
+        replace (option_eqb bytes_eqb (Some (skipn (length (bs "Content-Encoding") + 2) (bs "Content-Encoding: gzip")))
+                   (Some (bs "gzip"))) with true by (vm_compute; reflexivity).
+        apply gunz_gz.
+      + cbn [find_header].
+        replace (is_prefix (bs "Content-Length" ++ [COLON; SP]) (bs "Content-Type: " ++ v)) with false
+          by (vm_compute; reflexivity).
+        replace (is_prefix (bs "Content-Length" ++ [COLON; SP]) (bs "Cache-Control: max-age=86400")) with false
+          by (vm_compute; reflexivity).
+        replace (is_prefix (bs "Content-Length" ++ [COLON; SP]) (bs "Content-Encoding: gzip")) with false
+          by (vm_compute; reflexivity).
+        rewrite content_length_value_dec.
+        replace (is_prefix (bs "Content-Length" ++ [COLON; SP]) (bs "Content-Length: " ++ dec_of_N (len body)))
+          with true by (symmetry; apply (is_prefix_self_app (bs "Content-Length: "))).
+        reflexivity.
+    - rewrite packet_plain. set (body := content).
+      eexists content, _, body. split; [exact Hin|]. split; [reflexivity|].
+      split; [apply read_reply_lines; [discriminate|]|split].
+      + now apply clean_lines_plain.
+      + unfold client_body. cbn [find_header].
+        replace (is_prefix (bs "Content-Encoding" ++ [COLON; SP]) (bs "Content-Type: " ++ v)) with false
+          by (vm_compute; reflexivity).
+        replace (is_prefix (bs "Content-Encoding" ++ [COLON; SP]) (bs "Cache-Control: max-age=86400")) with false
+          by (vm_compute; reflexivity).
+        rewrite content_length_value_dec.
+        replace (is_prefix (bs "Content-Encoding" ++ [COLON; SP]) (bs "Content-Length: " ++ dec_of_N (len body)))
+          with false by (vm_compute; reflexivity).
+        replace (is_prefix (bs "Content-Encoding" ++ [COLON; SP]) (bs "Connection: close")) with false
+          by (vm_compute; reflexivity).
+        reflexivity.
+      + cbn [find_header].
+        replace (is_prefix (bs "Content-Length" ++ [COLON; SP]) (bs "Content-Type: " ++ v)) with false
+          by (vm_compute; reflexivity).
+        replace (is_prefix (bs "Content-Length" ++ [COLON; SP]) (bs "Cache-Control: max-age=86400")) with false
+          by (vm_compute; reflexivity).
+        rewrite content_length_value_dec.
+        replace (is_prefix (bs "Content-Length" ++ [COLON; SP]) (bs "Content-Length: " ++ dec_of_N (len body)))
+          with true by (symmetry; apply (is_prefix_self_app (bs "Content-Length: "))).
+        reflexivity.
+  Qed.
+End ReadBack.
+
+Theorem request_confined dir mcl agent fs guess_type gz gunz :
+  (forall x, gunz (gz x) = x) ->
+  startswith dir [SLASH] = true ->
+  forall request_path reply,
+    on_request_complete_static dir mcl agent fs guess_type gz request_path = Ok reply ->
+    reply = NOT_FOUND_RESPONSE_PKT agent
+    \/ exists p content headers body,
+         p = before_q (if nonempty request_path then body_or_empty request_path else [SLASH])
+         /\ inside dir (dir ++ p)
+         /\ fs (dir ++ p) = Some content
+         /\ reply = build_http_response 200 (Some (bs "OK")) headers (Some body) true false
+         /\ undo_encoding gunz headers body = content.
+Proof.
+  intros Hgz Hd rp reply H. unfold on_request_complete_static in H.
+  apply (confined dir mcl agent fs guess_type gz gunz Hgz Hd) in H.
+  destruct H as [H | (content & headers & body & H1 & H2 & H3 & H4)]; [now left|right].
+  eexists _, content, headers, body. split; [reflexivity|]. repeat split; assumption.
+Qed.
